@@ -40,6 +40,11 @@ class Gen:
         # bookkeeping layout of the history: every block inline, every block with a separate node, or per family
         # as the real overloads do (malloc family separate, new / new[] inline)
         self.mode = rng.choice(["inline", "separate", "family"])
+        # the switch position of the global overloads (script state of the harness): on/off, saved position, nesting depth
+        self.ov_on, self.ov_saved, self.ov_depth = True, True, 0
+        self.raw = []           # labels of live blocks the detector does not hold (acquired with the overloads off)
+        self.stashed = None     # current allocators at the last `stash save`
+        self.switchy = False    # True: the switch stream (global entry points, switch functions, current allocators dominate)
 
     def sep_for(self, ai):
         if self.mode == "family":
@@ -104,13 +109,132 @@ class Gen:
         f, ln = self.loc()
         self.ops.append("gacq %s %s %d %d %s %d" % (form, l, s, size, f, ln))
         self.blocks[l] = dict(slot=s, size=size, alloc=self.cur[fam], sep=(fam == "malloc"), stage=self.stage, period=self.period,
-                              tracked=True, gfam=fam)
+                              tracked=self.ov_on, gfam=fam)
+        if not self.ov_on:
+            self.raw.append(l)      # went to the platform malloc: live, but nothing the detector knows about
         self.occupied.add(s)
+
+    def raw_release(self):
+        """a block acquired with the overloads off goes back: through any releasing overload while they are off, else the client
+        returns it to the platform itself (`drop`); now and then it is (wrongly) given to the detector, which must refuse it"""
+        rng = self.rng
+        if not self.raw:
+            return
+        l = rng.choice(self.raw)
+        b = self.blocks[l]
+        f, ln = self.loc()
+        if self.ov_on and rng.random() < 0.3:
+            self.ops.append("grel %s %s 0 %s %d" % (rng.choice(REL_FORMS[rng.choice(["new", "newarray", "malloc"])]), l, f, ln))
+            return                  # reported as non-allocated, the block stays where it is
+        if self.ov_on or self.no_drop or rng.random() < 0.3:
+            if self.no_drop:
+                return
+            self.ops.append("drop " + l)
+        else:
+            self.ops.append("grel %s %s 0 %s %d" % (rng.choice(REL_FORMS[rng.choice(["new", "newarray", "malloc"])]), l, f, ln))
+        self.raw.remove(l)
+        self.occupied.discard(b["slot"])
+        self.stale.append(l)
+
+    def grealloc(self):
+        """cpputest_realloc_location: the C entry point behind realloc_fptr"""
+        rng = self.rng
+        f, ln = self.loc()
+        size = self.size()
+        x = rng.random()
+        nl = self.new_label()
+        if not self.ov_on:
+            # platform realloc: from NULL or of a block the detector does not hold
+            old = rng.choice(self.raw) if self.raw and x < 0.7 else None
+            if old and x < 0.25:
+                self.ops.append("grealloc %s 0 %s same %d %s %d" % (old, nl, size, f, ln)); s = self.blocks[old]["slot"]
+            else:
+                s = self.pick_slot()
+                if s is None:
+                    return
+                self.ops.append("grealloc %s 0 %s %d %d %s %d" % (old or "null", nl, s, size, f, ln))
+                if old:
+                    self.occupied.discard(self.blocks[old]["slot"])
+            if old:
+                self.raw.remove(old); self.stale.append(old)
+            self.blocks[nl] = dict(slot=s, size=size, alloc=self.cur["malloc"], sep=True, stage=self.stage, period=self.period, tracked=False, gfam="malloc")
+            self.raw.append(nl); self.occupied.add(s)
+            return
+        cands = [l for l in self.tracked() if self.blocks[l]["sep"]]
+        if x < 0.15 or not cands:
+            if x < 0.05 and self.raw:
+                # a block the detector does not hold: reported, nothing moves
+                self.ops.append("grealloc %s 0 %s %d %d %s %d" % (rng.choice(self.raw), nl, self.pick_slot() or 0, size, f, ln))
+                return
+            s = self.pick_slot()
+            if s is None:
+                return
+            self.ops.append("grealloc null 0 %s %d %d %s %d" % (nl, s, size, f, ln))
+        else:
+            l = rng.choice(cands)
+            b = self.blocks[l]
+            if x < 0.22:     # interior / neighbouring address: not an outstanding block
+                self.ops.append("grealloc %s %d %s %d %d %s %d" % (l, rng.choice([-1, 1, 8, 73]), nl, self.pick_slot() or 0, size, f, ln))
+                return
+            if x < 0.32:     # PlatformSpecificRealloc fails: the old block stays
+                self.ops.append("grealloc %s 0 %s null %d %s %d" % (l, nl, size, f, ln))
+                return
+            if x < 0.55:
+                self.ops.append("grealloc %s 0 %s same %d %s %d" % (l, nl, size, f, ln)); s = b["slot"]
+            else:
+                s = self.pick_slot()
+                if s is None:
+                    return
+                self.ops.append("grealloc %s 0 %s %d %d %s %d" % (l, nl, s, size, f, ln))
+                self.occupied.discard(b["slot"])
+            b["tracked"] = False
+            self.stale.append(l)
+        self.blocks[nl] = dict(slot=s, size=size, alloc=self.cur["malloc"], sep=True, stage=self.stage, period=self.period, tracked=True, gfam="malloc")
+        self.occupied.add(s)
+
+    def ov_op(self):
+        """the five switch functions; restore only when a save is open (the malformed stream also sends unbalanced ones)"""
+        rng = self.rng
+        w = rng.choice(["off", "plain", "threadsafe", "save", "save", "restore", "restore", "restore"])
+        if w == "restore" and self.ov_depth == 0 and not self.no_drop:
+            w = rng.choice(["off", "plain", "threadsafe"])
+        self.ops.append("ov " + w)
+        if w == "off":
+            self.ov_on = False
+        elif w in ("plain", "threadsafe"):
+            self.ov_on = True
+        elif w == "save":
+            if self.ov_depth == 0:
+                self.ov_saved, self.ov_on = self.ov_on, False
+            self.ov_depth += 1
+        elif self.ov_depth > 0:
+            self.ov_depth -= 1
+            if self.ov_depth == 0:
+                self.ov_on = self.ov_saved
+
+    def cur_op(self):
+        """the current allocators: to the default, to NULL (the getter installs the default), stash save / restore"""
+        rng = self.rng
+        x = rng.random()
+        fam = rng.choice(["new", "newarray", "malloc"])
+        dflt = {"new": 0, "newarray": 1, "malloc": 2}
+        if x < 0.25:
+            self.ops.append("setcur-default " + fam); self.cur[fam] = dflt[fam]
+        elif x < 0.45:
+            self.ops.append("setcur %s null" % fam); self.cur[fam] = dflt[fam]
+        elif x < 0.7:
+            self.ops.append("stash save"); self.stashed = dict(self.cur)
+        else:
+            self.ops.append("stash restore")
+            if self.stashed:
+                self.cur = dict(self.stashed)
 
     def grelease_paired(self):
         """a block goes back through one of the releasing overloads of its own family (any form)"""
         rng = self.rng
         cands = [l for l in self.tracked() if self.blocks[l].get("gfam")]
+        if not self.ov_on:
+            return self.raw_release()     # a tracked block must not go to the platform free behind the detector's back
         if not cands:
             return
         l = rng.choice(cands)
@@ -165,6 +289,9 @@ class Gen:
             self.ops.append("free %d %s %d %s %d %d" % (self.blocks[l]["alloc"], l, d, f, ln, self.blocks[l]["sep"]))
         elif x < 0.93:
             self.ops.append("free %d null 0 %s %d %d" % (rng.choice(CALLABLE), f, ln, rng.random() < 0.5))
+        elif x < 0.95 and self.raw:
+            # a block acquired with the overloads off was never the detector's: reported as non-allocated
+            self.ops.append("free %d %s 0 %s %d %d" % (rng.choice(CALLABLE), rng.choice(self.raw), f, ln, rng.random() < 0.5))
         else:
             a = rng.choice([1, 72, 73, 1167, 1168 + 512 * NSLOTS + rng.randrange(100000), rng.randrange(1 << 40)])
             self.ops.append("free %d @%d 0 %s %d %d" % (rng.choice(CALLABLE), a, f, ln, rng.random() < 0.5))
@@ -269,15 +396,37 @@ class Gen:
     def report(self):
         self.ops.append("report " + self.rng.choice(PERIODS))
 
+    def switch_step(self):
+        """one of the operations on the global entry points and their switches"""
+        x = self.rng.random()
+        if x < 0.25:
+            self.galloc()
+        elif x < 0.40:
+            self.grelease_paired()
+        elif x < 0.55:
+            self.grealloc()
+        elif x < 0.63:
+            self.raw_release()
+        elif x < 0.83:
+            self.ov_op()
+        elif x < 0.93:
+            self.cur_op()
+        else:
+            self.setcur()
+
     def step(self):
         x = self.rng.random()
         n = len(self.tracked())
+        if self.switchy and x < 0.45:
+            return self.switch_step()
         if x < 0.05:
             self.galloc()
         elif x < 0.08:
             self.grelease_paired()
         elif x < 0.09:
             self.setcur() if self.rng.random() < 0.5 else self.overloads_op()
+        elif x < 0.10 and self.switchy is not None:
+            self.switch_step()
         elif x < 0.36 or n == 0 and x < 0.6:
             self.alloc()
         elif x < 0.60:
@@ -294,6 +443,40 @@ class Gen:
             self.mark()
         else:
             self.report()
+
+
+def gen_switch_case(rng, n):
+    """histories dominated by the global entry points (every operator form, cpputest_malloc/realloc/free_location), the five
+    switch functions (off / plain / thread-safe / saveAndDisable / restore, nested) and the current-allocator functions"""
+    g = Gen(rng)
+    g.switchy = True
+    g.mode = "family"
+    g.period = "enabled"; g.ops.append("period enable")
+    for _ in range(n):
+        g.step()
+    # leave the switches as found (balanced), then the final reports
+    while g.ov_depth > 0:
+        g.ops.append("ov restore"); g.ov_depth -= 1
+    for q in PERIODS:
+        g.ops.append("report " + q)
+    return g.ops
+
+
+def gen_many(rng, n):
+    """very many allocations on few slots: the allocation number keeps counting, the table stays small"""
+    g = Gen(rng)
+    g.ops.append("period enable"); g.period = "enabled"
+    slots = [rng.randrange(NSLOTS) for _ in range(3)]
+    for i in range(n):
+        s = slots[i % 3]
+        g.ops.append("alloc m%d %d %d 0 many.c %d 0" % (i, s, i % 7, 1 + i % 900))
+        if i % 3 != 2 or rng.random() < 0.9:
+            g.ops.append("free 0 m%d 0 many.c 2 0" % i)
+        else:
+            g.ops.append("realloc 0 m%d 0 r%d same %d many.c 3 0" % (i, i, i % 5))
+            g.ops.append("free 0 r%d 0 many.c 4 0" % i)
+    g.ops.append("report all")
+    return g.ops
 
 
 def gen_case(rng, n):
@@ -367,8 +550,10 @@ def final_arg(g, rng):
 def gen_malformed(rng, n):
     g = Gen(rng)
     g.no_drop = True
+    g.switchy = rng.random() < 0.3
     words = ["alloc", "free", "realloc", "period", "stage", "clear", "mark", "report", "setup", "bogus", "", "0", "-1", "999999999999",
-             "null", "same", "b1", "b2", "@5", "all", "checking", "x.c", "inc", "release", "start"]
+             "null", "same", "b1", "b2", "@5", "all", "checking", "x.c", "inc", "release", "start", "ov", "restore", "save", "off", "grealloc",
+             "stash", "setcur-default", "setcur", "malloc", "new"]
     for _ in range(n):
         x = rng.random()
         if x < 0.5:
@@ -403,6 +588,9 @@ def generate(rng, tier):
         out.append(("malformed", gen_malformed(rng, rng.choice([5, 20, 60]))))
     for _ in range(n // 8):
         out.append(("plugin", gen_plugin_case(rng, rng.choice([1, 2, 4, 8, 20]))))
+    for _ in range(n // 4):
+        out.append(("switch", gen_switch_case(rng, rng.choice(lens[:5]))))
+    out.append(("many", gen_many(rng, 1500 if tier == "quick" else 20000)))
     return out
 
 
@@ -414,9 +602,9 @@ def signature(r):
 
 
 def translate(ctx):
-    from translate import extract_leakdetector, extract_leakplugin
+    from translate import extract_leakdetector, extract_leakplugin, extract_leakloops
     # the plugin's pre / post statement lists (C07's translator; the C04 model of the plugin-driven scenario imports them)
-    return (extract_leakdetector.run() or []) + (extract_leakplugin.run() or [])
+    return (extract_leakdetector.run() or []) + (extract_leakplugin.run() or []) + (extract_leakloops.run() or [])
 
 
 def _walk(r):
@@ -492,6 +680,28 @@ def observe(r, rep):
                 rep.count("branch.two_disables_then_enable")
             if lastp[-2:] == ["disable", "start"]:
                 rep.count("branch.start_checking_while_disabled")
+    on, depth = True, 0
+    op = []
+    for l in r.impl:
+        w = l.split()
+        if w[:1] == [">"]:
+            op = w[1:]
+            if op[:1] == ["ov"] and len(op) > 1:
+                rep.count("branch.ov_" + op[1])
+                if op[1] == "save":
+                    depth += 1
+                    rep.count("branch.ov_save_depth_%s" % ("1" if depth == 1 else "2" if depth == 2 else "3+"))
+                elif op[1] == "restore":
+                    rep.count("branch.ov_restore_%s" % ("unbalanced" if depth == 0 else "outermost" if depth == 1 else "inner"))
+                    depth = max(0, depth - 1)
+            elif op[:1] == ["stash"] or op[:1] == ["setcur-default"] or (op[:1] == ["setcur"] and op[-1:] == ["null"]):
+                rep.count("branch.current_" + "_".join(op[:2] if op[0] != "setcur" else ["setcur", "null"]))
+            elif op[:1] in (["gacq"], ["grel"], ["grealloc"]):
+                rep.count("branch.%s_overloads_%s" % (op[0], "on" if on else "off"))
+        elif w[:1] == ["overloaded"] and len(w) > 1:
+            on = w[1] == "1"
+        elif w[:1] == ["urealloc"] and op[:1] == ["grealloc"] and len(w) > 3:
+            rep.count("branch.grealloc_" + ("failed" if w[3] == "0" else "in_place" if w[3] == w[1] else "from_null" if w[1] == "0" else "moved"))
     for l in r.impl:
         if l.startswith("totals "):
             n = int(l.split()[1])
@@ -500,15 +710,21 @@ def observe(r, rep):
 
 TRUSTED = [
     "Lean 4 kernel; axioms of every theorem audited (propext, Classical.choice, Quot.sound at most)",
-    "hand-written model lean/CppUModel/Model/LeakDetector.lean, tied to src/CppUTest/MemoryLeakDetector.cpp by the h_c04 "
-    "correspondence of this run (private detector, arena with chosen addresses, both bookkeeping layouts)",
-    "extractor translate/extract_leakdetector.py (hash, isInPeriod, matchingAllocation translated expression by expression; "
-    "hash_prime, guard bytes, node size) regenerating Gen/LeakDetectorConstants.lean; its output is exercised by the correspondence",
+    "hand-written model lean/CppUModel/Model/LeakDetector.lean (detector, allocMemory / deallocMemory / reallocMemory, stage release, "
+    "mark, report iteration) and Model/LeakOverloads.lean (interpreter of the regenerated switch functions and wrappers), tied to "
+    "src/CppUTest/MemoryLeakDetector.cpp / MemoryLeakWarningPlugin.cpp / TestMemoryAllocator.cpp by the h_c04 correspondence of this "
+    "run (private detector, arena with chosen addresses, both bookkeeping layouts, the real global entry points and switch functions)",
+    "extractors translate/extract_leakdetector.py and translate/extract_leakloops.py: hash, isInPeriod, isInAllocationStage, "
+    "matchingAllocation and the guards of the six list loops translated expression by expression; the loop skeletons are matched "
+    "and a chain pointer is read as the list suffix that starts there (that reading is the extractor's); tables, assignment lists, "
+    "counter guards and static initialisers of the overload switches; the stash; every generated definition is used by a proof "
+    "obligation and executed by the correspondence",
     "platform allocator contract: an address handed out is not the address of a block that is still outstanding (hypothesis FreshAddr)",
-    "the harness's parsing of the report text (entries are compared after parsing; the text layout itself belongs to C14)",
+    "the harness's parsing of the report text (entries are compared after parsing; the text itself through length and hash, C04x)",
 ]
 ASSUMPTIONS = [
-    "allocation sequence number below 2^32 (modelled as a natural number); the allocation stage is the C unsigned char and wraps in the model too",
+    "allocation sequence number below 2^32 (modelled as a natural number; followed through 1 500 / 20 000 allocations per run); the "
+    "allocation stage is the C unsigned char and wraps in the model too",
     "a C++ node pointer is identified with the address of its block: equal under the invariant (no two records with one address)",
     "allocators passed to the detector are alive (hasBeenDestroyed() false)",
     "a block is released / reallocated with the bookkeeping layout it was allocated with; each history runs in one layout: all inline, all "
@@ -517,10 +733,18 @@ ASSUMPTIONS = [
     "line numbers fit an int (the texts print them through (int))",
     "the detector's text buffer is emptied before each report (startChecking + restoring the period), so reports are not truncated by earlier text; "
     "a report too long for the buffer is compared by its total only",
+    "with the overloads switched off a pointer given to a global release / realloc entry point is NULL or a block the detector does not "
+    "hold (handing a tracked block to the platform free behind the detector's back is client misuse); restoreNewDeleteOverloads "
+    "without an open saveAndDisableNewDeleteOverloads is outside the quantifier (modelled and compared, not judged)",
+    "global detector creation / destruction (getGlobalDetector's lazy new, destroyGlobalDetector) and MemoryLeakAllocator are not exercised",
 ]
 RULE = ("histories of alloc/free/realloc (moved, in place, from NULL, failing, of unknown blocks)/period changes/stage inc-dec-release/"
         "clear/mark/report over an arena whose addresses the generator chooses: 60% of the blocks go to at most 3 of the 73 buckets, "
-        "1-60+ live blocks, stale/interior/foreign/NULL releases, every allocator of the registry on both sides, both layouts; "
+        "1-60+ live blocks, stale/interior/foreign/NULL releases, every allocator of the registry on both sides, both layouts; a switch "
+        "stream (a quarter of the generated histories) drives every operator new/delete form, cpputest_malloc/realloc/free_location, the five "
+        "overload switch functions (off / plain / thread-safe / saveAndDisable / restore, nested up to depth 3+), "
+        "setCurrent...Allocator(NULL) / ...ToDefault and the allocator stash, with blocks acquired while the overloads are off; one history "
+        "with 1 500 (thorough 20 000) allocations on three slots; "
         "non-trivial = a release from a chain of >= 2 records, a stage release that returned a block, or a report with entries; "
         "distinct = distinct operation sequences")
 LEVEL_TEXT = ("Machine-checked Lean 4 theorems over an executable model of MemoryLeakDetectorList/Table/Detector written from the C++ "
@@ -528,10 +752,22 @@ LEVEL_TEXT = ("Machine-checked Lean 4 theorems over an executable model of Memor
               "bucket of its address, addresses pairwise distinct) is preserved by every operation; every operation refines a finite-map "
               "specification (lookup, insert, erase, filter, map); totals equal the number of in-period records; release/realloc remove "
               "exactly the named block; the first/next pointer chase enumerates exactly the in-period records, each once; clear, stage "
-              "release and mark-demote affect exactly the named records. The model is tied to the code on every run by a differential "
-              "harness (real detector, chosen addresses, ASan/UBSan), by regenerated functions/constants, and the implementation's own "
-              "observations are judged by an independent shadow-map oracle.")
-LEVEL_NOTE = ("Trusted: Lean kernel; the hand-written model (validated against the code by this run's correspondence); the extractor; the "
-              "allocator contract FreshAddr. Not carried by theorems: the text layout of the report (C14), sequence-number wrap after 2^32 "
-              "allocations.")
-TECHNIQUE = "Lean 4 invariant + refinement proofs over an executable model, differential correspondence harness with chosen addresses, regenerated loop-free functions"
+              "release and mark-demote affect exactly the named records. The six list loops (retrieveNode, removeNode, clearAllAccounting, "
+              "getLeakFrom, getLeakForAllocationStageFrom, getTotalLeaks) are REGENERATED from the source on every run (skeleton matched, "
+              "guard translated) and proved equal to the model's functions for every chain, so those theorems speak about the guards the "
+              "source has at check time. The switchable global entry points are covered: the 11 function pointers, their saved copies and "
+              "the nesting counter are state; turnOff / turnOn (plain, thread-safe) / saveAndDisable / restore / areNewDeleteOverloaded are "
+              "executed from regenerated assignment lists and counter guards; proved for every store: a switch sets all 11 pointers, "
+              "save/restore pairs nest to any depth and restore every pointer, with the overloads off no entry point (18 operator forms, "
+              "malloc/realloc/free_location) reaches the detector, with them on each form is allocMemory / reallocMemory / deallocMemory "
+              "with the current allocator of its family; the allocator stash restores all three current allocators and the defaults carry "
+              "their family's names. The model is tied to the code on every run by a differential harness (real detector, real global "
+              "entry points and switch functions, chosen addresses, ASan/UBSan), and the implementation's own observations are judged by "
+              "an independent shadow-map oracle.")
+LEVEL_NOTE = ("Trusted: Lean kernel; the hand-written model of the detector operations (validated against the code by this run's "
+              "correspondence); the extractors (skeleton matching and the pointer-to-list reading of the loops); the allocator contract "
+              "FreshAddr. Only pinned by shape (not translated): addNewNode, the first/next wrappers, the bucket loops of the table, the "
+              "guard-byte loops, the size functions. Not covered: sequence-number wrap after 2^32 allocations, creation / destruction of "
+              "the global detector, MemoryLeakAllocator, destroyed allocators; the text layout of the report is C04x / C14.")
+TECHNIQUE = ("Lean 4 invariant + refinement proofs over an executable model, differential correspondence harness with chosen addresses and the "
+             "real global entry points, regenerated list loops / switch functions / tables with equality and round-trip theorems")
